@@ -340,3 +340,7 @@ Print Assumptions C15_idle_tick_ignored_when_busy.
 Theorem C15_config_setter_covers_run : set_rt_covers_run_reads = true /\ cfg_response_timeout_fields = 3.
 Proof. exact config_setter_covers_run. Qed.
 Print Assumptions C15_config_setter_covers_run.
+
+Theorem C15_stream_frame_length_fits : stream_max_message_len < 65536 /\ stream_max_message_len = 65535.
+Proof. exact stream_frame_length_fits. Qed.
+Print Assumptions C15_stream_frame_length_fits.
